@@ -2,7 +2,7 @@
 
 Theorems: coq/C02/Properties_C02.v (round trip parse(print e) = strip e for every expression tree,
 any redundant parentheses, any level table; left/right associativity; generated ladder table =
-pinned table, <> spec table).
+the documented table since fix 4d0a4b7; the one law still refuted: `ident < ident > (`).
 Tie: CB_VERIF_DUMP_AST of the real parser vs the extracted model parser on the same text
 (all ordered operator pairs x {minimal, full, one redundant pair}, unary/postfix/ternary/assignment
 nestings, random trees to depth 5-6, mutated token streams) + the metamorphic evaluation
@@ -31,11 +31,12 @@ META = {
             "RecursiveParser::parseTernary and parsePrimary: for EVERY expression tree over the documented operators (18 binary "
             "operators on any total level table, 5 prefix operators, ++/--, [] . -> calls, ?:, = and op=), with ANY placement of "
             "redundant parentheses, parsing the printed token stream returns the tree with the parentheses erased, provided the "
-            "stream trips neither of the two look-aheads of parsePrimary (a computable predicate the generator uses as avoidance). "
+            "stream does not trip the generic-call look-ahead of parsePrimary (a computable predicate, implied by `no > directly before (`). "
             "Corollaries: binary operators group to the left, ?: and assignment to the right, higher levels bind tighter, "
             "fully parenthesised = minimally parenthesised. The level table of the C++ is re-extracted into Gen_LadderTable.v on "
-            "every run; `ladder_is_pinned` names the table the model was proved against and `ladder_is_spec_refuted` records that "
-            "== != share the relational level. The model is tied to the code on every run by comparing the AST dump of the real "
+            "every run; `ladder_is_spec` states that it IS the documented table (fix 4d0a4b7) and `ladder_conforms_to_spec` that printing "
+            "by the documented table round-trips through the code's ladder; the only law still refuted is the generic-call look-ahead on "
+            "`ident < ident > (`. The model is tied to the code on every run by comparing the AST dump of the real "
             "parser with the extracted model on the same text and by println(e) vs println(full(e)).",
     "note": "Trusted: Coq kernel (vm_compute for refutation witnesses and finite sweeps), no axioms (Print Assumptions: closed); "
             "extraction via ExtrOcamlBasic+ExtrOcamlString; hand-written model; the lexer is not modelled (tokens are printed "
@@ -173,15 +174,6 @@ def replace_at(t, path, fn):
     return tuple(l)
 
 
-def typelike(t):
-    """shapes that `( ... )` turns into a cast (finding C02-paren-ident-cast): x, x[1], x[i], x[1][j] ..."""
-    if t[0] == "V":
-        return True
-    if t[0] == "I":
-        return typelike(t[1]) and t[2][0] in ("N", "V")
-    return False
-
-
 def strip(t):
     k = t[0]
     if k == "P":
@@ -255,21 +247,6 @@ def add_random_pars(rng, t, p):
             l[c] = add_random_pars(rng, t[c], p)
         t = tuple(l)
     return ("P", t) if rng.random() < p else t
-
-
-def avoid_paren_cast(t):
-    """avoidance predicate for C02-paren-ident-cast: remove parentheses directly around a type-like
-    operand (the main stream must not trip the known defect)"""
-    k = t[0]
-    if k == "P":
-        inner = avoid_paren_cast(t[1])
-        return inner if typelike(inner) else ("P", inner)
-    if k == "C":
-        return ("C", t[1], [avoid_paren_cast(a) for a in t[2]])
-    l = list(t)
-    for c in children(t):
-        l[c] = avoid_paren_cast(t[c])
-    return tuple(l)
 
 
 # ------------------------------------------------------------------ model side
@@ -432,10 +409,8 @@ def pair_cases():
             for t in (("B", o2, ("B", o1, a, b), c), ("B", o1, a, ("B", o2, b, c))):
                 out.append(("pair-min", t))
                 out.append(("pair-full", None, t))     # filled through the model's `full`
-                for path in ((), (2,), (3,)):
-                    s = get_at(t, path)
-                    if not typelike(s):
-                        out.append(("pair-redundant", replace_at(t, path, lambda s_: ("P", s_))))
+                for path in positions(t):     # root, both operands, every identifier (parenthesised identifiers
+                    out.append(("pair-redundant", replace_at(t, path, lambda s_: ("P", s_))))   # are fine since 34a2124)
     return out
 
 
@@ -472,6 +447,26 @@ def nesting_cases():
         out += [("S", s1, ("I", a, b), c), ("S", s1, ("M", a, "m"), c), ("S", s1, ("A", a, "m"), c),
                 ("S", s1, ("I", a, ("B", "+", b, ("N", 1))), c), ("S", s1, ("I", ("I", a, b), c), d)]
     out += [("S", "=", ("U", "*", a), b), ("S", "=", ("P", ("M", a, "m")), b)]
+    return out
+
+
+def lookahead_cases():
+    """boundary of the generic-call look-ahead (fix 9bd33cd): x < M > (R) for middles M that do / do not
+    contain a token at which the scan gives up; the model mirrors the scan, so the ASTs must agree for all
+    of them, and the round trip must hold exactly for the ones the model calls safe"""
+    a, b, c, d = [("V", x) for x in VARS[:4]]
+    mids = [b, ("N", 1), ("B", "*", b, c), ("B", "+", b, ("N", 1)), ("B", "-", b, c), ("U", "-", b), ("U", "*", b), ("U", "!", b),
+            ("I", b, ("N", 1)), ("I", b, c), ("C", "g", [b]), ("P", b), ("B", "<<", b, ("N", 1)), ("B", "%", b, c), ("M", b, "m"),
+            ("B", "*", ("U", "*", b), c), ("POST", "++", b)]
+    rights = [("P", c), ("B", "&", c, d), ("P", ("B", "+", c, d)), ("B", "&&", c, d), ("T", c, d, a)]
+    out = []
+    for m in mids:
+        for r in rights:
+            out.append(("B", ">", ("B", "<", a, m), r))
+            out.append(("B", ">=", ("B", "<", a, m), r))
+            out.append(("B", ">", ("B", "<", ("M", a, "m"), m), r))
+            out.append(("B", "&&", ("B", "<", a, m), ("B", ">", b, r)))
+            out.append(("C", "f", [("B", "<", a, m), ("B", ">", b, r)]))
     return out
 
 
@@ -525,16 +520,13 @@ def compact(text):
     return "".join(out)
 
 
-def primary_lbracket(text, safe):
-    """array literals are outside the modelled fragment: a `[` in operand position, or after a `)`
-    when the stream trips the cast look-ahead"""
+def primary_lbracket(text, safe=True):
+    """array literals are outside the modelled fragment: a `[` in operand position"""
     toks = text.split()
     for i, t in enumerate(toks):
         if t == "[":
             prev = toks[i - 1] if i else None
             if prev is None or not (re.match(r"[a-z_0-9]", prev) or prev in (")", "]")):
-                return True
-            if prev == ")" and not safe:
                 return True
     return False
 
@@ -823,7 +815,7 @@ def run(rep):
     n_eval = 0
     distinct = set()
     nontrivial = set()
-    avoided = {"paren-cast": 0, "generic-lookahead": 0, "outside-fragment": 0}
+    avoided = {"generic-lookahead": 0, "outside-fragment": 0}
     samples = []
 
     # which operator pairs are ordered differently by the current C++ table and the pinned table
@@ -866,6 +858,10 @@ def run(rep):
     for t in nesting_cases():
         trees.append(t); origin.append("nesting-min")
         trees.append(model_full_one(t)); origin.append("nesting-full")
+    for t in lookahead_cases():
+        trees.append(t); origin.append("lookahead-boundary")
+    for k, t in enumerate(nesting_cases()):
+        trees.append(add_random_pars(rng_for(seed, "c02-nestred", k), t, 0.35)); origin.append("nesting-redundant")
     if not quick:
         for t in triple_cases():
             trees.append(t); origin.append("triple-min")
@@ -882,15 +878,6 @@ def run(rep):
             t = model_full_one(strip(t)); o = "random-full"
         else:
             t = add_random_pars(rng, t, rng.choice([0.05, 0.15, 0.4])); o = "random-redundant"
-        if o == "random-full":
-            pass                             # the model's `full` never wraps a type-like operand
-        elif rng.random() < 0.93:
-            t2 = avoid_paren_cast(t)        # avoidance predicate of C02-paren-ident-cast
-            if t2 != t:
-                avoided["paren-cast"] += 1
-            t = t2
-        else:
-            o += "+hazard"                   # kept on purpose: the model mirrors the defect, the ASTs must still agree
         trees.append(t); origin.append(o)
     # batch the model's `full` requests made above
     trees = resolve_full(trees)
@@ -898,14 +885,13 @@ def run(rep):
     mt = model_tree(trees)
     texts = [m["text"] for m in mt]
     mp = model_parse(texts)
-    im = impl_dumps(impl, texts, [m["nogtlp"] for m in mt])
+    im = impl_dumps(impl, texts, [True] * len(texts))      # the look-ahead stops at ) ; since 9bd33cd: statements are independent
     rt_fail = []
     for t, o, m, p_, i in zip(trees, origin, mt, mp, im):
         hist[o] = hist.get(o, 0) + 1
         n_eval += 1
         if not m["safe"]:
-            if not m["nogtlp"]:
-                avoided["generic-lookahead"] += 1
+            avoided["generic-lookahead"] += 1     # `ident < ident > (`: excluded from the round-trip claim, ASTs still compared
         if m["wf"] and m["safe"] and not m["rt"]:
             rt_fail.append((t, m["text"], p_))
         v = model_verdict(p_)
@@ -931,7 +917,7 @@ def run(rep):
     mark("ast-trees")
     # ---------------- (2b) the real lexer: the same token sequence written compactly (a+b*c) must give the
     # same AST as the blank-separated text the model is compared on
-    sel = [k for k in range(len(texts)) if mt[k]["nogtlp"] and im[k] is not None and not str(im[k]).startswith(("ERR", "CRASH"))]
+    sel = [k for k in range(len(texts)) if im[k] is not None and not str(im[k]).startswith(("ERR", "CRASH"))]
     sel = sel[::2] if quick else sel
     ctexts = [compact(texts[k]) for k in sel]
     cim = impl_dumps(impl, ctexts, [True] * len(ctexts))
@@ -1013,12 +999,11 @@ def run(rep):
     reds = []
     for k, m in enumerate(ev_meta):
         rng = rng_for(seed, "c02-evred", k)
-        reds.append(avoid_paren_cast(add_random_pars(rng, mins[k], 0.3)))
+        reds.append(add_random_pars(rng, mins[k], 0.3))
     mt_min, mt_full, mt_red = model_tree(mins), model_tree(fulls_sx), model_tree(reds)
     for m, x, y, z in zip(ev_meta, mt_min, mt_full, mt_red):
-        # one file holds many statements: the generic look-ahead scans across them, so every text must
-        # satisfy no_gt_lp (avoidance of C02-generic-lookahead)
-        ok = x["safe"] and y["safe"] and z["safe"] and x["nogtlp"] and y["nogtlp"] and z["nogtlp"]
+        # avoidance of what is left of C02-generic-lookahead: `ident < ident > (` (the model's safeb, exact)
+        ok = x["safe"] and y["safe"] and z["safe"]
         m["texts"] = [x["text"], y["text"], z["text"]]
         m["safe"] = ok
         if not ok:
@@ -1083,7 +1068,7 @@ def run(rep):
     e_full = model_tree(model_full([c[0] for c in eff_cases]))
     eff_run = []
     for (t, vs, stmt), x, y in zip(eff_cases, e_min, e_full):
-        if x["safe"] and y["safe"] and x["nogtlp"] and y["nogtlp"]:
+        if x["safe"] and y["safe"]:
             fmt = "%s;" if stmt else "println(%s);"
             eff_run.append((vs, [fmt % x["text"], fmt % y["text"]], t))
     chunks = [eff_run[i:i + 20] for i in range(0, len(eff_run), 20)]
@@ -1168,6 +1153,20 @@ def run(rep):
             rep.violation("coqchk", {"log": summ[-2000:]}, "coqchk rejects the compiled C02 development", True)
 
     # ---------------- (6) known findings
+    # former witnesses of repaired defects (corpus): they must keep printing what the property demands
+    n_prog = 0
+    if os.path.exists(corpus):
+        for c in json.load(open(corpus)):
+            if "program" in c:
+                n_prog += 1
+                rc, o, e = common.run_cb(impl, c["program"])
+                got = o.split("\n")[:-1] if o.endswith("\n") else o.split("\n")
+                if rc != 0 or got != c["expected"]:
+                    rep.violation("regression", {"program": c["program"], "expected": c["expected"], "rc": rc, "stdout": got[:8],
+                                                 "stderr": e[:300], "from": c.get("from")},
+                                  "former witness of a repaired defect fails again (%s): exit %s, printed %s, demanded %s" % (
+                                      c.get("from"), rc, got[:6], c["expected"]))
+    rep.coverage["corpus_programs"] = n_prog
     for f in common.known_findings(PROP):
         still, obs = replay_finding(impl, f)
         if still:
